@@ -154,6 +154,32 @@ var meaningfulArgs = []string{
 	"a==b", "a=*b", "a*=b", "a= b ", "==", "**", "=*", "*=", "route=10.0.0.0/08 10.1.1.1", "zonelist=a,b,,c", "bytes_in=18446744073709551616",
 }
 
+// rfcAttrNames: the attributes RFC 8907 section 8 defines for authorization and accounting; rfcAttrValues:
+// what a device may report in a numeric one, including the edges of every integer width, zero, signs and text.
+var rfcAttrNames = []string{"task_id", "start_time", "stop_time", "elapsed_time", "timezone", "event", "reason", "bytes", "bytes_in", "bytes_out",
+	"paks", "paks_in", "paks_out", "err_msg", "service", "protocol", "cmd", "cmd-arg", "acl", "inacl", "outacl", "addr", "addr-pool", "timeout",
+	"idletime", "autocmd", "noescape", "nohangup", "priv-lvl"}
+var rfcAttrValues = []string{"0", "0", "0", "0", "1", "7", "-1", "00", "60", "255", "256", "65535", "65536", "2147483647", "2147483648", "4294967295", "4294967296",
+	"9223372036854775807", "9223372036854775808", "-9223372036854775808", "18446744073709551615", "18446744073709551616", "", "x", "1.5", "1e9",
+	"0x10", " 1", "1 ", "+1", "NaN", "true"}
+
+// genAttrArgs draws n attribute-value pairs of the standard attributes (names may repeat); half of the time
+// they are preceded by what a stop record carries: task id, elapsed time and the traffic counters.
+func genAttrArgs(t *rapid.T, label string, n int) []model.B {
+	var out []model.B
+	if rapid.Bool().Draw(t, label+"_stop_record") {
+		for _, name := range []string{"task_id", "elapsed_time", "bytes_in", "bytes_out", "paks_in", "paks_out"} {
+			if rapid.IntRange(0, 3).Draw(t, label+"_has_"+name) != 0 {
+				out = append(out, model.B(name+"="+rapid.SampledFrom(rfcAttrValues).Draw(t, label+"_"+name)))
+			}
+		}
+	}
+	for i := 0; i < n; i++ {
+		out = append(out, model.B(rapid.SampledFrom(rfcAttrNames).Draw(t, label+"_name")+rapid.SampledFrom([]string{"=", "=", "*"}).Draw(t, label+"_sep")+rapid.SampledFrom(rfcAttrValues).Draw(t, label+"_value")))
+	}
+	return out
+}
+
 var (
 	authenActions  = []byte{1, 2, 4}
 	authenTypes    = []byte{1, 2, 3, 4, 5, 6}    // START: NotSet (0) is refused
